@@ -4,6 +4,22 @@ import json, os, subprocess
 V = os.path.dirname(os.path.abspath(__file__))
 
 CHECKS = {
+ 'C02': dict(cat='model_checking', tech='bounded exhaustive enumeration of boundary-class tuples (private key x hash x OID x generator tape x t x key length) on the real bign code against a spec-level reference; every single-bit flip and boundary substitution of every verifier input judged by the reference equations',
+             text='3 standard curves x private keys {1,2,q-2,q-1,appendix,filler} x hashes {0,1,q-1,q,q+1,2^2l-1,...} x OIDs x 12 generator tape shapes (values in [q,p), 64/65 rejections) x deterministic-signature t classes: sign/sign2/idsign/idsign2 = reference value and verify; '
+                  'engineered (d,k,H) with H >= q hitting every branch of the final subtraction; key generation = reference rejection sampling and passes validation; DH symmetric; key transport inverse for lengths 16..48; '
+                  'bignVerify/bignKeyUnwrap/bignIdExtract/bignIdVerify accept an altered input (every single bit; s1 := q, s1+q; x,y := p, p+x; off-curve, twist, (0,0)) iff the reference equations accept.',
+             note='trusted: ref/bign.py + ref/ecp.py (vector-gated); value dimension by boundary alphabets', ref='4/C02'),
+ 'C04': dict(cat='model_checking', tech='exhaustive enumeration of protocol histories with one adversary action (every octet of every message x masks, point substitutions, mismatches, validator errors, every channel-call fault of the Run drivers) on the real code; relational oracle + spec-level reference for honest runs',
+             text='3 curves x {BMQV, BSTS, BPACE, BAUTH} x admissible (kca,kcb) x hello shapes x tapes (incl. multipliers engineered to 0): honest runs succeed with equal keys (= ref/bake.py), step by step and through RunA/RunB against a scripted channel; '
+                  'ONE adversary action per run: flip of every octet of every message, 18 point substitutions on every point-carrying message, length changes, mismatched passwords/keys/certificates/hello, each validator call failing, '
+                  'every read/write call index answering an error / short read / premature end: never all-OK with equal keys, error where confirmation exists, invalid points refused by the receiving step, drivers leave nothing allocated. '
+                  'The -P substitution where the standards use x-coordinates only is listed as a known finding.',
+             note='trusted: ref/bake.py, ref/ecp.py; certificate validator and channel are drv/vh_c04.c', ref='4/C04'),
+ 'C17': dict(cat='model_checking', tech='explicit-state search (BFS on raw state bytes of both secure-messaging endpoints) with tamper probes at every reached state; exhaustive chain/alteration enumeration for CV certificates and key containers against a spec-level reference',
+             text='CVC: key lengths {24,32,48,64} x name lengths 7..13 squared x 16 date classes x access-word classes: Wrap = reference certificate, Unwrap/Check/Match agree; chains of depth 1..3 over {name match/mismatch/prefix} x 6 validity relations x {right, wrong, wrong-length signer}, accepted iff the btok.h rules hold; '
+                  'every octet of 9 certificates altered (quick 1 mask, thorough 8): never accepted as the same content. Secure messaging: BFS to depth 6 over wrap/unwrap/CtrInc events for every Lc/Le form x data lengths (quick: 12 boundary lengths, thorough 0..300), dedup on the state bytes; in-step recovery exact, wrong parity refused with state unchanged, every tampered octet refused. '
+                  'bpki containers: right password -> key; wrong password, altered octet, truncation/extension -> error, no key octets released.',
+             note='trusted: ref/tok.py (vector-gated: STB 34.101.79 example, bee2evp CSR), ref/belt.py, ref/bign.py', ref='4/C17'),
  'C14': dict(cat='model_checking', tech='control-flow trace enumeration of the shipped machine code under x86 single-step over a secret-value alphabet per public shape (set of traces must have size 1); exhaustive SAFE-vs-FAST differential over the same alphabet',
              text='For every SAFE/FAST pair the sources declare (33; a new pair without a descriptor is itself reported), every operand length 0..8 (thorough 0..16) words / octet counts 0..33 (0..69) and every modulus class: '
                   'both editions are called on every tuple of the secret alphabet (equal, first difference at every position in both directions, boundaries, multiples of the modulus) and must agree (reductions also with the exact formula), '
